@@ -35,6 +35,7 @@ type Task struct {
 	Timeout  int      // obligation timeout seconds (0 = tier default)
 	Fresh    bool     // send obligations straight to fresh solver processes
 	Confirm  string   // known-finding id to confirm (explore only its region)
+	GFMul    bool     // summarise GenericGF.Multiply as the polynomial product (validated by C04)
 	NoReach  bool     // harness has no Reach witness (e.g. totality harness where every path may end early)
 }
 
@@ -125,6 +126,8 @@ func cmdRun(args []string) int {
 	trace := fs.Bool("trace", false, "")
 	confirm := fs.String("confirm", "", "known finding id to confirm")
 	fresh := fs.Bool("fresh", false, "")
+	gfmul := fs.Bool("gfmul", false, "")
+	backends := fs.String("backends", "", "comma-separated obligation back ends")
 	fs.Parse(args)
 	var ints []int64
 	if *argStr != "" {
@@ -147,7 +150,10 @@ func cmdRun(args []string) int {
 		pprof.StartCPUProfile(f)
 		defer pprof.StopCPUProfile()
 	}
-	t := Task{Pkg: *pkg, Func: *fn, Args: ints, NoMerge: *nomerge, Confirm: *confirm, Fresh: *fresh}
+	t := Task{Pkg: *pkg, Func: *fn, Args: ints, NoMerge: *nomerge, Confirm: *confirm, Fresh: *fresh, GFMul: *gfmul}
+	if *backends != "" {
+		t.Backends = strings.Split(*backends, ",")
+	}
 	r := runTasks(P, []Task{t}, "quick", 1, *trace, "DBG")[0]
 	printTaskResult(r)
 	if r.Err != "" {
@@ -305,6 +311,7 @@ func runOne(P *Program, m *sx.Machine, t Task, tier string, known []KnownFinding
 		m.Backends = t.Backends
 	}
 	m.FreshFirst = t.Fresh
+	m.SummarizeGFMul = t.GFMul
 	m.OblTimeout = 30 * time.Second
 	if tier == "thorough" {
 		m.OblTimeout = 300 * time.Second
